@@ -104,6 +104,7 @@ class World:
         if sorted(obj.outer_inds()) != sorted(want):
             raise OuterIndsChanged("outer indices %s, expected %s" % (sorted(obj.outer_inds()), sorted(want)))
         val = U.dense_op(obj) if kind == "mpo" else U.dense_vec(obj)
+        self.last_abs = U.dense_op(obj, True) if kind == "mpo" else U.dense_vec(obj, True)
         if kind == "mpo":
             odims = [int(obj[i].ind_size(obj.upper_ind(i))) for i in sites]
             ldims = [int(obj[i].ind_size(obj.lower_ind(i))) for i in sites]
@@ -113,14 +114,14 @@ class World:
             odims = [int(obj.ind_size(obj.site_ind(i))) for i in sites]
         return val, odims, [int(b) for b in U.bond_sizes(obj)]
 
-    def snap(self, flat, tol=None):
+    def snap(self, flat, tol=None, mag=0.0):
         """array -> Gaussian integers; the tolerance is absolute, relative to the largest magnitude"""
         flat = np.asarray(flat, dtype=complex).reshape(-1)
         if flat.size == 0:
             return []
         if not np.all(np.isfinite(flat)):
             return OFFGRID
-        atol = (tol or self.atol) * (1.0 + float(np.max(np.abs(flat))))
+        atol = (tol or self.atol) * (1.0 + max(float(np.max(np.abs(flat))), float(mag)))
         if atol > 0.25:
             return OFFGRID
         re, im = np.round(flat.real), np.round(flat.imag)
@@ -131,7 +132,8 @@ class World:
     def put(self, rec, name, obj, kind, val, odims, cyclic, scale=1.0):
         """finish a record that defines `name`; register the object when it is usable"""
         flat = np.asarray(val).reshape(-1) * scale
-        snapped = self.snap(flat)
+        absnet = np.asarray(getattr(self, "last_abs", np.abs(val))).reshape(np.asarray(val).shape) * scale
+        snapped = self.snap(flat, mag=float(np.max(absnet, initial=0.0)))
         rec["ongrid"] = snapped != OFFGRID
         rec["val"] = snapped if rec["ongrid"] else []
         rec["odims"] = odims
@@ -142,7 +144,8 @@ class World:
         self.log(rec)
         if name:
             self.objs[name] = obj
-            self.meta[name] = {"kind": kind, "dims": list(odims), "val": exact, "cyclic": cyclic}
+            self.meta[name] = {"kind": kind, "dims": list(odims), "val": exact, "cyclic": cyclic, "abs": absnet,
+                               "bonds": list(rec.get("bonds", []))}
             try:
                 plain = list(obj.gen_sites_present()) == list(range(len(odims))) and obj.L == len(odims)
             except Exception:  # noqa
@@ -270,6 +273,8 @@ class World:
             val, odims, bonds = self.measure(obj, kind)
             rec["bonds"] = bonds
             self.put(rec, name, obj, kind, val, odims, False)
+            if _f32(self.dtype):
+                self.sub.add(name)      # (factors of a single precision SVD: checked here, not reused)
         except Exception as ex:  # noqa
             self.fail_rec(rec, ex)
         return name
@@ -291,7 +296,7 @@ class World:
                 warnings.simplefilter("ignore")
                 obj = fn()
             val, odims, bonds = self.measure(obj, kind_out)
-            if self.too_big(np.max(np.abs(val), initial=0.0) * scale_out):
+            if self.too_big(np.max(self.last_abs, initial=0.0) * scale_out):
                 return None
             rec["bonds"] = bonds
             if list(odims) != list(edims):
@@ -299,6 +304,9 @@ class World:
                 self.put(rec, "", obj, kind_out, val, odims, cyc, scale=scale_out)
                 return None
             self.put(rec, name, obj, kind_out, val, odims, cyc, scale=scale_out)
+            if name and _f32(self.dtype) and params.get("how") in ("compress", "canonicalize", "expand_bond_dimension"):
+                # single precision factors of an SVD / QR are not exact integers: the object is not reused
+                self.sub.add(name)
             return name if (name and rec["ongrid"]) else None
         except Exception as ex:  # noqa
             self.fail_rec(rec, ex)
@@ -326,7 +334,11 @@ class World:
         self.log(rec)
 
     def absval(self, n):
-        return np.abs(self.meta[n]["val"])
+        """entrywise bound on the sum of the magnitudes of the terms the object's network sums"""
+        return np.maximum(np.abs(self.meta[n]["val"]), self.meta[n]["abs"])
+
+    def maxbond(self, n):
+        return max(self.meta[n].get("bonds") or [1])
 
     def random_step(self):
         import quimb.tensor as qtn
@@ -536,7 +548,9 @@ class World:
                 if M[a]["cyclic"]:
                     return
                 nb = max(U.bond_sizes(oa) + [1]) + r.randint(0, 2)
-                f = lambda: oa.expand_bond_dimension(nb, rand_strength=0.0, inplace=False)
+                # (on a copy: at the pinned commit MatrixProductState.expand_bond_dimension(inplace=False) expands the
+                #  receiver itself - reported for C03, the value is unchanged either way)
+                f = lambda: oa.copy().expand_bond_dimension(nb, rand_strength=0.0)
             elif how == "canonicalize":
                 if M[a]["cyclic"]:
                     return
@@ -553,7 +567,7 @@ class World:
                 how = r.choice(["to_dense", "to_qarray"])
                 v = np.asarray(oa.to_dense() if how == "to_dense" else oa.to_qarray())
                 rec["how"] = how
-                s = self.snap(v.reshape(-1))
+                s = self.snap(v.reshape(-1), mag=float(np.max(self.absval(a), initial=0.0)))
                 rec["ongrid"] = s != OFFGRID
                 rec["val"] = s if rec["ongrid"] else []
                 rec["shape"] = [int(x) for x in v.shape]
